@@ -174,6 +174,7 @@ func init() {
 		delete(externals, n)
 	}
 	registerStringsNative()
+	registerHexTrims()
 
 	// strings.Builder (real one uses unsafe)
 	bufOf := func(args []value) structure { return (*args[0].(*value)).(structure) }
@@ -391,6 +392,7 @@ func init() {
 	}
 	registerFmt()
 	registerJSON()
+	registerWKT()
 	registerErrors()
 }
 
